@@ -20,6 +20,7 @@ mod xmlsurf;
 mod kdbx2;
 mod legacy;
 mod canon;
+mod xmldb;
 
 use common::Args;
 
@@ -68,6 +69,7 @@ fn main() {
         "C09P" => c09p::run(&args),
         "C01" | "C04" | "C05" | "C06" | "C20" => kdbx2::run(&args),
         "C02" => legacy::run(&args),
+        "XML" => xmldb::run(&args),
         "C13" | "C14" | "C15" | "C16" => merge::run(&args),
         p => { eprintln!("unknown property {}", p); std::process::exit(2); }
     }
